@@ -92,6 +92,8 @@ def allowed_regions(img, info, uinfo, blob, model):
 def oracle(program, mods):
     shim.install('UTC')
     failures = []
+    # a moving clock in half of the cases (views are compared, not bytes): whatever the library stamps twice must still agree
+    shim.set_tick(len(program['ops']) % 2 == 1)
     run = Run(program)
     run.run_all()
     run.stats = {'c01_domain': 0, 'mods_accepted': 0, 'mods_refused': 0}
